@@ -13,6 +13,7 @@ CONSTANTS
   Names <- MCNamesByFam
   Edits <- MCEditsByFam
   ExtraBits <- AllBits
+  Exporting = FALSE
   MaxOps = 2
 VIEW View
 INVARIANTS AcceptOnlyEdDSA AcceptOnlySignedByNamedKey AcceptOnlyIssuedByVkuth AcceptOnlyForUser
